@@ -456,6 +456,8 @@ def gen_registry(r):
         return {"route": "default"}
     route = wchoice(r, [("plain", 5), ("usys", 2), ("empty_plus", 1)])
     op = {"route": route, "edits": []}
+    if route == "plain" and r.random() < 0.08:
+        return op   # a private registry nobody has edited yet: same contents as the default one, still its own object
     if route == "usys":
         op["usys"] = r.choice(["cgs", "imperial", "galactic", "solar"])
     op["edits"].append({"k": "add", "sym": "code_length", "scale": r.choice([3.0, 0.5, 1.0e21, 2.0]), "dims": "length",
@@ -855,7 +857,8 @@ class Sim11:
         rest = Lineage(robj, rreg)
         self.usys_names = (reg.unit_system.name, rreg.unit_system.name)
         after = o1_describe(robj, rreg)
-        self.check_o1(before, after, rt, build)
+        same = self.check_o1(before, after, rt, build)
+        self.check_identity_and_hash(obj, reg, robj, rreg, route, same)
         if getattr(self, "filled_in", None):
             # the fill-in is reported once (O1); the follow-ups then compare
             # behaviour under equal contents
@@ -966,6 +969,25 @@ class Sim11:
                                               "edited in between"}, [route, ",".join(sorted(set(x.split(".")[-1] for x in d2)))[:60]])
         self.log.add({"o1": after, "follows": outs})
 
+    def check_identity_and_hash(self, obj, reg, robj, rreg, label, same):
+        unyt, uo, ur = _m()
+        if reg is not ur.default_unit_registry and rreg is ur.default_unit_registry:
+            # the original lived in a private registry; edits of "its" registry after the restore would go to (or be
+            # refused by) the library-wide default registry
+            self.violate("O1-restored-into-default-registry", {"route": label}, [label])
+        if same:
+            uo_, ur_ = (obj if isinstance(obj, uo.Unit) else obj.units), (robj if isinstance(robj, uo.Unit) else robj.units)
+            try:
+                eq, ho, hr = (uo_ == ur_), hash(uo_), hash(ur_)
+            except Exception as e:
+                if rw.harness_frame(e.__traceback__):
+                    raise
+                return
+            self.count("o1_hash")
+            if eq and ho != hr:
+                # equal units of registries with equal contents: sets and dicts keyed by one must find the other
+                self.violate("O1-equal-units-hash-differently", {"route": label, "unit": str(uo_)}, [label])
+
     def check_o1(self, before, after, rt, build, label=None):
         b = {k: v for k, v in before.items() if k != "table"}
         a = {k: v for k, v in after.items() if k != "table"}
@@ -1001,6 +1023,7 @@ class Sim11:
             self.violate("O1-registry-contents",
                          {"route": rt, "differences": {k: v[:8] for k, v in kinds.items()},
                           "note": "restored registry does not hold the contents of the original at dump time"}, sig)
+        return not diffs and not kinds
 
     def check_o2(self, fop, o, rr, chaos):
         f = fop["f"]
